@@ -262,60 +262,64 @@ def run_with_deadline(body, case, deadline):
 # ---------------------------------------------------------------------------------------
 
 class ReportingQueue(queue.Queue):
-    """queue.Queue that reports what the two threads do with it (never changes the outcome,
-    only shortens the polling time-outs of Worker.run / Worker.put_task)."""
+    """queue.Queue that counts what the two threads do with it.  The counters change together with the
+    queue content under the queue's own mutex (_put/_get hooks), so that the controller can tell
+    "blocked" from "about to continue" without a race.  Behaviour is unchanged except for a shorter
+    polling time-out of Worker.run (faster shutdown)."""
 
     def __init__(self, maxsize, ctl):
         super().__init__(maxsize)
         self.ctl = ctl
+        self.n_put = 0          # items inserted
+        self.n_got = 0          # items removed
+        self.n_done = 0         # task_done() calls
+        self.attempts = 0       # put() calls started (and not timed out)
+        self.in_join = False
+
+    def _put(self, item):       # called by Queue.put with self.mutex held
+        super()._put(item)
+        self.n_put += 1
+
+    def _get(self):             # called by Queue.get with self.mutex held
+        item = super()._get()
+        self.n_got += 1
+        return item
 
     def put(self, item, block=True, timeout=None):
-        c = self.ctl
-        with c.cv:
-            c.in_put = True
-            c.cv.notify_all()
+        with self.mutex:
+            self.attempts += 1
         try:
-            return super().put(item, block, 0.02 if timeout else timeout)
-        finally:
-            with c.cv:
-                c.in_put = False
-                c.cv.notify_all()
+            return super().put(item, block, timeout)
+        except queue.Full:
+            with self.mutex:
+                self.attempts -= 1
+            raise
 
     def join(self):
-        c = self.ctl
-        with c.cv:
-            c.in_join = True
-            c.cv.notify_all()
+        self.in_join = True
         try:
             return super().join()
         finally:
-            with c.cv:
-                c.in_join = False
-                c.cv.notify_all()
+            self.in_join = False
 
     def get(self, block=True, timeout=None):
-        item = super().get(block, 0.02 if timeout else timeout)
-        c = self.ctl
-        with c.cv:
-            c.n_got += 1
-            c.cv.notify_all()
-        return item
+        return super().get(block, 0.02 if timeout else timeout)
 
     def task_done(self):
         super().task_done()
-        c = self.ctl
-        with c.cv:
-            c.n_done += 1
-            c.cv.notify_all()
+        with self.mutex:
+            self.n_done += 1
+
+    def snapshot(self):
+        with self.mutex:
+            n = len(self.queue)
+            return {'len': n, 'full': 0 < self.maxsize <= n, 'put': self.n_put, 'got': self.n_got, 'done': self.n_done,
+                    'putting': self.attempts > self.n_put, 'joining': self.in_join, 'unfinished': self.unfinished_tasks}
 
 
 class Control:
     def __init__(self):
         self.cv = threading.Condition()
-        self.in_put = False
-        self.in_join = False
-        self.n_got = 0
-        self.n_done = 0
         self.n_arrived = 0      # worker tasks that reached their gate
         self.n_released = 0     # gates opened by the controller
         self.caller = 'idle'    # idle | running | done
@@ -324,7 +328,7 @@ class Control:
         self.worker_dead = False
 
 
-def gate_disk(disk, ctl, fail):
+def gate_disk(disk, ctl, fail, patience=DEADLINE):
     for name in ('load', 'save', 'delete'):
         def wrap(f, name=name):
             def g(*a, **k):
@@ -333,7 +337,7 @@ def gate_disk(disk, ctl, fail):
                     ctl.n_arrived += 1
                     ctl.tasks_seen.append([name, a[0] if a else None])
                     ctl.cv.notify_all()
-                    t_end = time.time() + 4 * DEADLINE
+                    t_end = time.time() + 8 * patience
                     while ctl.n_released <= idx:
                         ctl.cv.wait(0.05)
                         if time.time() > t_end:
@@ -352,7 +356,7 @@ def run_sched_body(case, res):
     tmp = tempfile.mkdtemp(prefix='c20s_', dir=os.environ.get('C20_TMP'))
     ctl = Control()
     disk = find_subclass(Storage, case['storage']).open(tmpdir=tmp)
-    gate_disk(disk, ctl, case.get('fail_task'))
+    gate_disk(disk, ctl, case.get('fail_task'), case.get('settle_deadline', DEADLINE))
     worker = Worker(max_queue_size=case['max_queue_size'])
     worker.tasks = ReportingQueue(case['max_queue_size'], ctl)
     worker.__enter__()
@@ -378,7 +382,7 @@ def run_sched_body(case, res):
             o = cache_op(caches, op)
             if op[0] == 'sub' and o == ['none']:
                 gate_sub = caches[-1].long_term_storage.disk_storage
-                gate_disk(gate_sub, ctl, case.get('fail_task'))
+                gate_disk(gate_sub, ctl, case.get('fail_task'), case.get('settle_deadline', DEADLINE))
             with ctl.cv:
                 outs.append(o)
                 ctl.caller = 'idle' if i + 1 < len(ops) else 'done'
@@ -388,37 +392,38 @@ def run_sched_body(case, res):
     cth = threading.Thread(target=caller, daemon=True)
     cth.start()
     q = worker.tasks
-
     fail_task = case.get('fail_task')
 
-    def worker_settled():
+    def worker_settled(sn):
         if not worker.worker_thread.is_alive():
             return True
         if fail_task is not None and ctl.n_released > fail_task:
             return False        # the failing task was started: settled only once the thread is gone
         if ctl.n_arrived > ctl.n_released:
-            return True
-        return ctl.n_got == ctl.n_done and q.qsize() == 0 and ctl.n_arrived == ctl.n_released
+            return True         # waits at a gate
+        # idle: everything that was put has been taken and finished, nothing is on its way to a gate
+        return sn['len'] == 0 and sn['got'] == sn['put'] and sn['done'] == sn['got'] and ctl.n_arrived == ctl.n_released
 
-    def caller_settled():
+    def caller_settled(sn):
         if ctl.permits > 0:
             return False
         if ctl.caller in ('idle', 'done'):
             return True
         if not worker.worker_thread.is_alive() or worker.exit.is_set():
             return False        # every blocking call must raise now
-        if ctl.in_put and q.full():
+        if sn['putting'] and sn['full']:
             return True
-        if ctl.in_join and q.unfinished_tasks > 0:
+        if sn['joining'] and sn['unfinished'] > 0:
             return True
         return False
 
     def settle():
-        t_end = time.time() + DEADLINE
+        t_end = time.time() + case.get('settle_deadline', DEADLINE)
         with ctl.cv:
             stable = 0
             while True:
-                if worker_settled() and caller_settled():
+                sn = q.snapshot()
+                if worker_settled(sn) and caller_settled(sn):
                     stable += 1
                     if stable >= 2:
                         return True
@@ -429,7 +434,8 @@ def run_sched_body(case, res):
                 ctl.cv.wait(0.0005)
 
     def blocked_kind():
-        return 'put' if ctl.in_put else ('join' if ctl.in_join else '?')
+        sn = q.snapshot()
+        return 'put' if sn['putting'] else ('join' if sn['joining'] else '?')
 
     def step(tok):
         """returns the trace entry of one schedule token"""
@@ -516,6 +522,12 @@ def main():
     payload = json.load(open(sys.argv[1]))
     kind = payload['kind']
     cases = payload['cases']
+    # import everything before any deadline starts to run (imports are slow on a busy machine)
+    import tenpy.tools.cache, tenpy.tools.thread, tenpy.tools.events, tenpy.tools.misc  # noqa: F401,E401
+    try:
+        import h5py  # noqa: F401
+    except Exception:
+        pass
     res = [None] * len(cases)
     if kind == 'events':
         for i, c in enumerate(cases):
